@@ -433,6 +433,20 @@ func c03LengthSweep(ctx *Ctx, report func(c interface{}, err error)) {
 			return []ev.Event{{K: ev.BigDFloat, BDF: d}}
 		}})
 	}
+	// coefficients with trailing zeros (an encoder that reduces them moves the exponent)
+	for _, zeros := range []int{3, 30} {
+		zeros := zeros
+		fams = append(fams, family{fmt.Sprintf("big-decimal-exponent/coefficient-with-%d-trailing-zeros", zeros), 0, len(bigDecExps) - 1, func(n int) []ev.Event {
+			d := &apd.Decimal{Exponent: bigDecExps[n]}
+			d.Coeff.SetString("73000000000000000001"+strings.Repeat("0", zeros), 10)
+			return []ev.Event{{K: ev.BigDFloat, BDF: d}}
+		}})
+		fams = append(fams, family{fmt.Sprintf("big-decimal-exponent/power-of-ten-coefficient-%d", zeros), 0, len(bigDecExps) - 1, func(n int) []ev.Event {
+			d := &apd.Decimal{Exponent: bigDecExps[n]}
+			d.Coeff.SetString("1"+strings.Repeat("0", zeros+20), 10)
+			return []ev.Event{{K: ev.BigDFloat, BDF: d}}
+		}})
+	}
 	dfloatExps := []int32{-2147483648, -2147483647, -1000000, -100001, -99999, -400, 400, 99999, 100001, 1000000, 2147483646, 2147483647}
 	fams = append(fams, family{"decimal-float-exponent", 0, len(dfloatExps) - 1, func(n int) []ev.Event {
 		return []ev.Event{{K: ev.DFloat, DF: compact_float.DFloatValue(dfloatExps[n], 1234567890123456789)}}
